@@ -237,8 +237,18 @@ def cross(modifiable):
     check(rig, "C17/cross")
     op_sync(rig, "start_p")
     check(rig, "C17/cross")
+    # periodic tasks on maps of the "other" direction as well (RPDO of the local, TPDO of the remote node)
+    extra = []
+    for mp, cob in ((rig.local.rpdo[1], 0x305), (rig.remote.tpdo[1], 0x387)):
+        mp.clear()
+        mp.add_variable(C.TYPE_INDEX[0x05])
+        mp.cob_id = cob
+        mp.enabled = True
+        mp.start(sx.fresh_int("px", 1, 1000))
+        extra.append(cob)
+        sx.prove(len(rig.live(cob)) == 1, "PDO task not started", "C17/cross/extra-start")
     op_disconnect(rig)
-    for name, arb in (("pdo", PDO_COB), ("pdo2", 0x207)):
+    for name, arb in (("pdo", PDO_COB), ("pdo2", 0x207), ("local-rpdo", 0x305), ("remote-tpdo", 0x387)):
         sx.prove(len(rig.live(arb)) == 0, "PDO task survives disconnect", "C17/disconnect/%s" % name)
     sx.reach("cross")
 
